@@ -1,6 +1,8 @@
 """C08 half = IEEE 754 binary16: exhaustive enumeration of conversions, + - * /, fma (alphabet), sqrt, comparisons,
 classification, sign operations and hash of the real implementation, judged by the exact integer reference
-refs/C08_half_ref.hpp; the software conversion path and the F16C path are built separately and compared bit for bit."""
+refs/C08_half_ref.hpp; the software conversion path and the F16C path are built separately and compared bit for bit
+(also on a cast family of finite double / long double / integer sources whose value is not judged); the dynamic
+floating-point environment (rounding direction, MXCSR.DAZ / MXCSR.FTZ) is a dimension of the enumeration."""
 import os
 import shutil
 import tempfile
@@ -14,6 +16,12 @@ SRC = os.path.join(HERE, "harness.cpp")
 SCRATCH = "/tmp/bld"
 
 FENV_MODES = ("FE_UPWARD", "FE_DOWNWARD", "FE_TOWARDZERO")
+# MXCSR denormal flavours ("denormals are zero" / "flush to zero"): prior process state like the rounding direction; they run in
+# the default builds (no compiler flag is involved: the bits only change what SSE instructions do at run time)
+MXCSR_MODES = ("DAZ", "FTZ", "DAZ+FTZ")
+# streams whose operand is a 64-bit pattern (double bits / two's complement integer) instead of half bit patterns
+A64_STREAMS = ("double2half_cast", "double2half_cast_rn", "double2half_ctor", "double2half_assign", "longdouble2half_cast",
+               "int2half_cast", "int2half_ctor", "longlong2half_cast")
 CLASSIFY_FNS = ("isfinite", "isinf", "isnan", "isnormal", "signbit", "fpclassify")
 
 
@@ -57,6 +65,31 @@ def plan(tier):
              ("san-fmad", ["--mode", "fmad", "--alpha", "s"], ("san",))]
     jobs += [("unary@%s" % m, ["--fenv", m, "--mode", "unary"], rm) for m in FENV_MODES]
     jobs += [("nanfam@%s" % m, ["--fenv", m, "--mode", "nanfam"], rm) for m in FENV_MODES]
+    # 1b. cast family: finite double / long double / integer sources around every binary16 value and rounding midpoint (value not
+    #     judged, software vs F16C only), the float boundary alphabet with the third float entry point; in every environment
+    cs = "t" if thorough else "q"
+    n = 16 if thorough else 4
+    jobs += [("casts-%d" % k, ["--mode", "casts", "--set", cs, "--shard", str(k), str(n)], both) for k in range(n)]
+    jobs += [("f2hb", ["--mode", "f2hb"], both), ("san-casts", ["--mode", "casts", "--set", "s"], ("san",)), ("san-f2hb", ["--mode", "f2hb"], ("san",))]
+    n = 4
+    for m in FENV_MODES:
+        jobs += [("casts-%d@%s" % (k, m), ["--fenv", m, "--mode", "casts", "--set", "q", "--shard", str(k), str(n)], rm) for k in range(n)]
+        jobs += [("f2hb@%s" % m, ["--fenv", m, "--mode", "f2hb"], rm)]
+    # 1c. MXCSR.DAZ / MXCSR.FTZ flavours (default builds): every 2^16-function, the NaN/infinity family, the cast family, the float
+    #     boundary alphabet, mixed operands on A4096 under each flavour; pairs on A4096^2, fma on F196^3 and the derived family on
+    #     A512^2 under DAZ+FTZ (thorough: the quick pair / fma sets under each flavour and the complete float sweep under DAZ+FTZ)
+    for m in MXCSR_MODES:
+        fe = ["--fenv", m]
+        jobs += [("unary@%s" % m, fe + ["--mode", "unary"], both), ("nanfam@%s" % m, fe + ["--mode", "nanfam"], both), ("f2hb@%s" % m, fe + ["--mode", "f2hb"], both)]
+        jobs += [("casts-%d@%s" % (k, m), fe + ["--mode", "casts", "--set", "q", "--shard", str(k), str(n)], both) for k in range(n)]
+        if thorough:
+            jobs += [("mixed-%d@%s" % (k, m), fe + ["--mode", "mixed", "--shard", str(k), "8"], both) for k in range(8)]
+        else:
+            jobs += [("mixed-m@%s" % m, fe + ["--mode", "mixed", "--set", "m"], both)]
+    fe = ["--fenv", "DAZ+FTZ"]
+    if not thorough:
+        jobs += [("pairs-m-%d@DAZ+FTZ" % k, fe + ["--mode", "pairs", "--set", "m", "--shard", str(k), "2"], both) for k in range(2)]
+        jobs += [("fma-m@DAZ+FTZ", fe + ["--mode", "fma", "--alpha", "m"], both), ("fmad-s@DAZ+FTZ", fe + ["--mode", "fmad", "--alpha", "s"], both)]
     # 2. default rounding mode: pairs, fma, the float sweep
     if thorough:
         n = 128
@@ -83,6 +116,15 @@ def plan(tier):
     for m in FENV_MODES:
         n = 32
         jobs += [("f2h-%d@%s" % (k, m), ["--fenv", m, "--mode", "f2h", "--shard", str(k), str(n)], rm) for k in range(n)]
+    if thorough:
+        for m in MXCSR_MODES:
+            fe = ["--fenv", m]
+            n = 8
+            jobs += [("pairs-q-%d@%s" % (k, m), fe + ["--mode", "pairs", "--set", "q", "--shard", str(k), str(n)], both) for k in range(n)]
+            jobs += [("fma-q-%d@%s" % (k, m), fe + ["--mode", "fma", "--alpha", "q", "--shard", str(k), str(n)], both) for k in range(n)]
+            jobs += [("fmad-q-0@%s" % m, fe + ["--mode", "fmad", "--alpha", "q"], both)]
+        n = 32
+        jobs += [("f2h-%d@DAZ+FTZ" % k, ["--fenv", "DAZ+FTZ", "--mode", "f2h", "--shard", str(k), str(n)], both) for k in range(n)]
     return jobs
 
 
@@ -150,9 +192,46 @@ def _mode_of(args):
     return args[args.index("--fenv") + 1] if "--fenv" in args else None
 
 
+def _pair_of_mode(mode):
+    """(software build name, F16C build name) for an environment: the -frounding-math builds under a directed rounding mode,
+    the default builds otherwise (default environment and the MXCSR flavours)"""
+    return ("sw-rm", "f16c-rm") if mode in FENV_MODES else ("sw", "f16c")
+
+
 def _pair_for(args):
     """(software build name, F16C build name) that run a job with these arguments"""
-    return ("sw-rm", "f16c-rm") if _mode_of(args) else ("sw", "f16c")
+    return _pair_of_mode(_mode_of(args))
+
+
+def _env_text(mode):
+    if not mode:
+        return ""
+    return " with MXCSR %s set" % mode if mode in MXCSR_MODES else " under fesetround(%s)" % mode
+
+
+def dclass(b):
+    """class of a double bit pattern, for signatures"""
+    a = b & 0x7FFFFFFFFFFFFFFF
+    if a > 0x7FF0000000000000:
+        return "nan"
+    if a == 0x7FF0000000000000:
+        return "inf"
+    if a == 0:
+        return "zero"
+    if a < 0x0010000000000000:
+        return "double-subnormal"
+    e = (a >> 52) - 1023
+    if e >= 16:
+        return "finite:above-half-range"
+    if e < -25:
+        return "finite:below-half-range"
+    # bits below the last place a half keeps (10 mantissa bits for normal results, fewer for subnormal ones)
+    drop = 42 if e >= -14 else min(53, 42 + (-14 - e))
+    m = (a & 0xFFFFFFFFFFFFF) | (1 << 52)
+    rem = m & ((1 << drop) - 1)
+    half = 1 << (drop - 1)
+    where = "exact" if rem == 0 else "tie" if rem == half else "above-half" if rem > half else "below-half"
+    return "finite:%s:%s%s" % ("normal" if e >= -14 else "subnormal", where, "" if (b & 0x1FFFFFFF) == 0 else ":not-a-float")
 
 
 def locate_path_difference(ctx, bins, args, stream, sub):
@@ -160,7 +239,7 @@ def locate_path_difference(ctx, bins, args, stream, sub):
     mode = _mode_of(args)
     sfx = "[%s]" % mode if mode else ""
     bsw, bhw = _pair_for(args)
-    width = 8 if stream in ("half2double", "half2double_cast", "hash") else 4 if stream in ("half2float", "half2float_cast") else 2
+    width = 8 if stream in ("half2double", "half2double_cast", "hash", "half2longlong_cast", "half2longdouble_cast") else 4 if stream in ("half2float", "half2float_cast", "half2int_cast") else 2
     d = tempfile.mkdtemp(prefix="C08_dump_", dir=SCRATCH if os.path.isdir(SCRATCH) else None)
     try:
         files = {}
@@ -177,10 +256,9 @@ def locate_path_difference(ctx, bins, args, stream, sub):
             raise vlib.HarnessError("could not map index %d of stream %s back to its operands" % (idx, stream))
         n = max(1, int(nth[0]["n"]))
         ops = [nth[0]["a"], nth[0]["b"], nth[0]["c"]][:n]
-        if stream.startswith("double2half"):
+        if stream in A64_STREAMS:
             ops = [nth[0]["a64"]]
-            m = int(ops[0], 16) & ((1 << 52) - 1)
-            cls = "inf" if m == 0 else "nan"
+            cls = dclass(int(ops[0], 16)) if "double" in stream else "integer"
         elif stream.startswith("float2half"):
             cls = fclass(int(ops[0], 16))
         else:
@@ -191,7 +269,7 @@ def locate_path_difference(ctx, bins, args, stream, sub):
             fn = stream = nth[0]["fn"]
         sig = "C08/path/%s%s/%s/sw-differs-from-f16c" % (stream, sfx, cls)
         msg = ("%s(%s)%s: the software build returns %s, the F16C build returns %s (canonical bits; NaN results are compared as NaN); "
-               "results must be bit-identical whether or not the F16C path is compiled in" % (fn, ", ".join(ops), " under fesetround(%s)" % mode if mode else "", vsw, vhw))
+               "results must be bit-identical whether or not the F16C path is compiled in" % (fn, ", ".join(ops), _env_text(mode), vsw, vhw))
         ctx.violation(sig, msg, harness="c08-path" + ("@" + mode if mode else ""), args=["--pathone", stream] + ops)
     finally:
         shutil.rmtree(d, ignore_errors=True)
@@ -293,7 +371,17 @@ def run(ctx):
     ctx.stats["evaluations"] = sum(v for k, v in ctx.stats.items() if k.startswith("evaluations_"))
     ctx.stats["distinct_nontrivial"] = ctx.stats.get("nontrivial_sw", 0)   # default mode, software build: every case once
     ctx.stats["evaluations_under_directed_rounding_modes"] = sum(v for k, v in ctx.stats.items() if k.startswith("evaluations_") and "[FE_" in k)
-    order = ["float2half", "pair", "fma", "sqrt", "nanfam", "mixed"]
+    ctx.stats["evaluations_under_mxcsr_daz_ftz"] = sum(v for k, v in ctx.stats.items() if k.startswith("evaluations_") and ("[DAZ" in k or "[FTZ" in k))
+    ctx.stats["results_judged_by_path_equality_only"] = sum(v for k, v in ctx.stats.items() if k.startswith("results_judged_by_path_equality_only_"))
+    for b in ("sw", "f16c"):
+        n = ctx.stats.get("info_double2half_cast_finite_sources_" + b)
+        if n:
+            ctx.note("information only (not judged): [%s] finite double sources of the cast family: half_cast<half>(double) differs from the single correctly rounded value on %d of %d, "
+                     "half_cast<half,round_to_nearest>(double) on %d, half(double) on %d and operator=(double) on %d (documented: through float, double rounding), half_cast<half>(long double) on %d of %d" % (
+                         b, ctx.stats.get("info_double2half_cast_differs_from_single_rounding_" + b, 0), n, ctx.stats.get("info_double2half_cast_rn_differs_from_single_rounding_" + b, 0),
+                         ctx.stats.get("info_double2half_ctor_differs_from_single_rounding_" + b, 0), ctx.stats.get("info_double2half_assign_differs_from_single_rounding_" + b, 0),
+                         ctx.stats.get("info_longdouble2half_cast_differs_from_single_rounding_" + b, 0), ctx.stats.get("info_longdouble2half_cast_finite_sources_" + b, 0)))
+    order = ["float2half", "pair", "fma", "sqrt", "nanfam", "mixed", "casts"]
     i = 0
     while len(ctx.samples) < 12 and any(samples.get(k) for k in order):
         k = order[i % len(order)]
@@ -314,15 +402,30 @@ def run(ctx):
         "a+t, t+a, a-t, t-a, a*t, t*a, a/t, t/a, a+=t, a-=t, a*=t, a/=t judged bit for bit (sign of zero included, NaN as NaN) against the reference operation on (a, half(t)), and the six comparisons in both operand orders against the float comparison of the converted values; software and F16C build. "
         "NaN/infinity boundary family (judged: NaN stays a NaN with its sign, infinity stays that infinity): for double->half (half_cast<half>(double), half_cast<half,round_to_nearest>(double), half(double), operator=(double)) and float->half (constructor, operator=, half_cast), "
         "both signs x exponent all ones x {0, every single mantissa bit, every pair of mantissa bits, low-word-only / high-word-only / mixed payloads with the quiet bit off and on, all-ones patterns}: 3244 doubles and 588 floats, in every build and under every rounding mode. "
-        "Dynamic rounding mode (owned by the harness): the complete float->half sweep, all the 2^16-functions, and + - * / , comparisons, copysign on the quick pair set and fma on A512^3 and the quick derived family are repeated in both paths "
+        "Cast family (finite double / long double / integer sources; the VALUE is not judged - the statement promises correct rounding for float sources - but every result must be bit-identical in the software and the F16C build): "
+        "anchors = every finite non-negative binary16 value, 2^16 and every rounding midpoint between neighbouring binary16 values (2^-25 = underflow threshold ... 65520 = overflow threshold), 63489 anchors built with integer arithmetic; "
+        + ("around every anchor the doubles anchor +- k double-ulps for k = 0, 2^j-1, 2^j, 2^j+1 (j = 0..51) and 2^i+2^j (i < j < 44), both signs; " if thorough else
+           "around every anchor the doubles anchor +- k double-ulps for k = 0, 2^j-1, 2^j, 2^j+1 (j = 0..43: every single discarded-bit position, the half's guard bit 41 and the float's guard bit 28 included), both signs - 32.6 million doubles that are not floats; ")
+        + "plus sign x every finite double exponent field (0..2046) x 27 mantissa patterns; each through half_cast<half>(double), half_cast<half,round_to_nearest>(double), half(double) and operator=(double); half_cast<half>(long double) on every anchor +- {0, 1, 2^28, 2^32} ulps and the exponent sweep; "
+        "half_cast<half>(int), half(int), half_cast<half>(long long) on every int in [-65600, 65600] and +-(2^k + {-1,0,1}), k = 17..62; half_cast<int>, half_cast<long long>, half_cast<long double> on ALL 2^16 halves (streams of the 2^16-functions). "
+        "Float boundary alphabet FB (sign x every float exponent field x {0, single bits, bit pairs, runs of ones, all ones minus one bit} = 173 568 floats): constructor, operator= and half_cast<half>(float), judged against the reference. "
+        "MXCSR flavours (owned by the harness like the rounding direction; default builds): with DAZ, FTZ and DAZ+FTZ set once per shard through _mm_setcsr (verified to be in effect on float and double arithmetic, and verified to be unchanged at the end), "
+        "every 2^16-function, the NaN/infinity family, the cast family, FB and the mixed-operand family on "
+        + ("ALL halves, + - * / comparisons copysign on the quick pair set, fma on A512^3 and the quick derived family are repeated under each flavour, and the complete 2^32 float->half sweep under DAZ+FTZ; " if thorough else
+           "A4096 are repeated under each flavour; + - * / comparisons copysign on A4096^2, fma on the 196-value alphabet cubed and the derived family on A512^2 under DAZ+FTZ; ")
+        + "the expected bits are the default-environment bits (the reference is integer code; no float or double denormal occurs on the oracle side) and the sw/F16C digests must agree under each flavour. Measured on the unchanged tree before the flavours were made part of the check: no judged operation depends on DAZ or FTZ. "
+        "Dynamic rounding mode (owned by the harness): the cast family and FB, the complete float->half sweep, all the 2^16-functions, and + - * / , comparisons, copysign on the quick pair set and fma on A512^3 and the quick derived family are repeated in both paths "
         "(builds with -frounding-math) after fesetround(FE_UPWARD), FE_DOWNWARD and FE_TOWARDZERO (set once per shard, verified to be in effect on float and double arithmetic, restored at the end); the expected bits are the same round-to-nearest-even bits and the sw/F16C digests must agree under each mode. "
-        "evaluations = judged implementation results over all builds and modes. distinct_nontrivial = distinct (function, operand tuple) cases of the software build (each enumerated exactly once) whose exact real result is NOT a binary16 value and whose correctly rounded result is finite and non-zero, "
+        "evaluations = judged implementation results over all builds and environments (results_judged_by_path_equality_only of them - finite double, long double and integer sources, casts from half to integer types - are judged by the software-vs-F16C comparison alone). distinct_nontrivial = distinct (function, operand tuple) cases of the software build (each enumerated exactly once) whose exact real result is NOT a binary16 value and whose correctly rounded result is finite and non-zero, "
         "or is infinity although |exact| < 2^16 (default rounding mode only; the repetitions under the three directed modes are the same operand tuples and are not counted again) - i.e. the guard/sticky/tie logic decided the answer (float->half counted once per float, not per entry point; conversions from half, comparisons, classification and hash have no such notion and are not counted).")
     ctx.assumptions += [
         "the exact integer reference refs/C08_half_ref.hpp is trusted; it is cross-checked on every run against double arithmetic (exact for + - *, innocuous double rounding for / and sqrt, TwoSum + round-to-odd for fma), against an ldexp construction for conversions, and - through the F16C build - against the hardware conversion on all 2^32 floats",
         "NaN results are compared as 'is a NaN' (payload and, except for unary minus/fabs/copysign, sign of a NaN result are not judged); the software half->float path keeps signalling NaNs signalling while the hardware quiets them - reported as a note, not a violation",
         "isnormal and fpclassify are judged by the binary16 class of the operand (a subnormal half is a normal float, so the float functions cannot be the oracle there); isfinite/isinf/isnan/signbit agree with both",
-        "double->half: judged only on the NaN/infinity boundary family (NaN-to-NaN with the sign kept, infinity preserved); the ROUNDING of finite doubles and integer<->half conversions are enumerated on boundary values and reported as notes only - the statement does not claim them and the converting constructor documents double rounding through float",
+        "double->half: the VALUE is judged only on the NaN/infinity boundary family (NaN-to-NaN with the sign kept, infinity preserved; also for long double sources); the ROUNDING of finite doubles and integer<->half conversions is not judged against a reference - the statement does not claim it and the converting constructor documents double rounding through float - "
+        "but every conversion entry point must give the same bits in the software and the F16C build (the statement's last clause), which is what the cast family checks; agreement with single correct rounding is reported as a note",
+        "MXCSR.DAZ / MXCSR.FTZ are treated like the rounding direction: process state that a conforming caller may have inherited (crtfastmath.o of a -ffast-math object); the statement's results are claimed for every such state because the unchanged implementation is integer code / explicit-immediate F16C and was measured to be invariant. "
+        "Flavours and rounding directions are separate dimensions (no cross product); the sanitizer build runs in the default environment only",
         "fma: the 2^48 triples are not exhausted; the claim is exactly the two stated families",
         "dynamic rounding mode: the reference is integer arithmetic and does not depend on it; the double-based self-test and the information-only conversions run under FE_TONEAREST only; the shards under a directed mode use separate builds compiled with -frounding-math",
         "exception flags/errno (HALF_ERRHANDLING_*), rounding styles other than the default round-to-nearest, ++/--, literals and stream I/O are outside this check; mixed-operand operators and compound assignment are judged only for T values that binary16 represents exactly (the T -> half conversion of other values is the float -> half sweep / information-only double rounding)",
@@ -335,7 +438,7 @@ def replay(ctx, rec):
     args = list(rec["args"])
     if h.startswith("c08-path"):
         mode = h.split("@")[1] if "@" in h else None
-        pair = ("sw-rm", "f16c-rm") if mode else ("sw", "f16c")
+        pair = _pair_of_mode(mode)
         fe = ["--fenv", mode] if mode else []
         if args and args[0] == "--pathjob":
             stream, sub, jobargs = args[1], int(args[2]), args[3:]
